@@ -1,4 +1,5 @@
 import FontVerif.DriverMain
 import FontVerif.Drv.C01
+import FontVerif.Drv.C01Iter
 
-def main : IO Unit := FontVerif.driverMain [FontVerif.Drv.C01.handle]
+def main : IO Unit := FontVerif.driverMain [FontVerif.Drv.C01.handle, FontVerif.Drv.C01Iter.handle]
